@@ -644,6 +644,22 @@ func (c *SpecCtx) call(x *ast.CallExpr) SVal {
 		case "itoa":
 			a := c.tr(x.Args[0])
 			return SVal{sx("str-itoa", a.t), tString}
+		case "sprintf": // sprintf(format, a, b...): the same uninterpreted function as the model of fmt.Sprintf
+			n := len(x.Args) - 1
+			name := fmt.Sprintf("fmt-sprintf!%d", n)
+			sorts := []string{"String"}
+			terms := []string{c.tr(x.Args[0]).t}
+			for _, a := range x.Args[1:] {
+				v := c.tr(a)
+				sorts = append(sorts, "Any")
+				if v.ty == nil {
+					terms = append(terms, "any-nil")
+				} else {
+					terms = append(terms, u.box(v.t, v.ty))
+				}
+			}
+			fv.eng.declareGhost(name, sorts, "String")
+			return SVal{sx(name, terms...), tString}
 		case "box": // box(x): the interface value holding x
 			a := c.tr(x.Args[0])
 			return SVal{u.box(a.t, a.ty), types.NewInterfaceType(nil, nil)}
